@@ -101,6 +101,90 @@ M[-1]["extra"] = [("def get_css_files(path):\n", "_MEMO = {}\n\n\ndef get_css_fi
 mut("m18f-empty-file-skipped", "C18", CLI, "                css_content = f.read()\n", "                css_content = f.read()\n            if not css_content.strip() and len(files) > 1:\n                continue\n", "empty stylesheets are skipped, but only in batches")
 
 
+# ---------------------------------------------------------------------------
+# benign variants: behaviour-preserving refactorings a maintainer might make. EVERY check must stay quiet on them
+# (./check selftest-benign): the other half of "never raise an alarm on code where the property holds".
+B = []
+
+
+def ben(mid, path, old, new, note="", extra=()):
+    B.append({"id": mid, "prop": "all", "path": path, "old": old, "new": new, "note": note, "extra": list(extra)})
+
+
+VIS = "cm_colors/core/visualiser.py"
+CON = "cm_colors/core/contrast.py"
+HTML = "cm_colors/cli/html_report.py"
+
+ben("b01-atomic-output-write", CLI, '            with open(output_path, "w", encoding="utf-8") as f:\n                f.write(tinycss2.serialize(rules))',
+    '            import os as _os\n            _tmp = str(output_path) + ".tmp"\n            try:\n                with open(_tmp, "w", encoding="utf-8") as f:\n                    f.write(tinycss2.serialize(rules))\n                _os.replace(_tmp, output_path)\n            finally:\n                if _os.path.exists(_tmp):\n                    _os.remove(_tmp)',
+    "output written to a sibling temp file and renamed into place; temp removed on any failure")
+ben("b02-sorted-traversal", CLI, '        for p in path.rglob("*.css"):', '        for p in sorted(path.rglob("*.css")):', "files processed in sorted order")
+ben("b03-correct-memo-on-pair", COL, "        result = check_and_fix_contrast(\n            self.text._rgb, self.bg._rgb, self.large, mode, premium\n        )",
+    "        _k = (self.text._rgb, self.bg._rgb, bool(self.large), mode, bool(premium))\n        if not hasattr(self, \"_memo\"):\n            self._memo = {}\n        if _k not in self._memo:\n            self._memo[_k] = check_and_fix_contrast(\n                self.text._rgb, self.bg._rgb, self.large, mode, premium\n            )\n        result = self._memo[_k]",
+    "a private per-object memo keyed on ALL arguments")
+ben("b04-lru-cache-pure-helper", CON, "def calculate_relative_luminance(rgb: Tuple[int, int, int]) -> float:", "@_lru(maxsize=4096)\ndef calculate_relative_luminance(rgb: Tuple[int, int, int]) -> float:",
+    "lru_cache on a pure function of an int triple", extra=[("from typing import Tuple\n", "from typing import Tuple\nfrom functools import lru_cache as _lru\n")])
+ben("b05-read-via-pathlib", CLI, '            with open(file_path, "r", encoding="utf-8-sig") as f:\n                css_content = f.read()', '            css_content = Path(file_path).read_text(encoding="utf-8-sig")',
+    "input read with Path.read_text (bypasses the interposed open)")
+ben("b06-silent-debug-logging", OPT, "    # Check if already accessible\n    current_contrast = calculate_contrast_ratio(text_rgb, bg_rgb)\n\n    if current_contrast >= target_contrast:\n        return text_rgb",
+    "    # Check if already accessible\n    current_contrast = calculate_contrast_ratio(text_rgb, bg_rgb)\n    import logging\n    logging.getLogger(__name__).debug(\"contrast %s\", current_contrast)\n\n    if current_contrast >= target_contrast:\n        return text_rgb",
+    "debug logging without a handler")
+ben("b07-report-via-pathlib", HTML, '    with open(output_path, "w", encoding="utf-8") as f:\n        f.write(html_content)', '    from pathlib import Path as _P\n    _P(output_path).write_text(html_content, encoding="utf-8")',
+    "CLI report written with Path.write_text")
+ben("b08-results-list-comprehension-order", BULK, "    results = []\n    report_data = []", "    results = list()\n    report_data = list()", "cosmetic")
+ben("b09-schedule-as-tuple-constant", OPT, "    # Strict sequence for each step\n    strict_sequence = [0.8, 1.0, 1.2, 1.4, 1.6, 1.8, 2.0, 2.2, 2.5, 2.8, 3.0]\n\n    for _ in range(max_iterations):\n        current_contrast",
+    "    # Strict sequence for each step\n    strict_sequence = list(_STRICT)\n\n    for _ in range(max_iterations):\n        current_contrast",
+    "module-level immutable schedule copied per call", extra=[("def binary_search_lightness(\n", "_STRICT = (0.8, 1.0, 1.2, 1.4, 1.6, 1.8, 2.0, 2.2, 2.5, 2.8, 3.0)\n\n\ndef binary_search_lightness(\n")])
+
+
+def run_benign(m, budget):
+    top = f"/dev/shm/cmverif-ben-{os.getpid()}-{m['id']}"
+    shutil.rmtree(top, ignore_errors=True)
+    os.makedirs(top)
+    rec = {"id": m["id"], "note": m.get("note", ""), "checks": {}}
+    try:
+        shutil.copytree(os.path.join(os.path.dirname(base.REPO_SRC), "src"), os.path.join(top, "src"), ignore=shutil.ignore_patterns("__pycache__"))
+        apply(os.path.join(top, "src"), m)
+        shutil.copytree("/repo/tests", os.path.join(top, "tests"))
+        tenv = dict(os.environ, PYTHONPATH=os.path.join(top, "src"), PYTHONDONTWRITEBYTECODE="1")
+        tp = subprocess.run([sys.executable, "-m", "pytest", "-q", "-x", "-p", "no:cacheprovider", "--timeout=900", "tests"], env=tenv,
+                            capture_output=True, text=True, timeout=1200, cwd=top)
+        rec["repo_tests_pass"] = tp.returncode == 0
+        env = dict(os.environ, VERIF_REPO_SRC=os.path.join(top, "src"), VERIF_MAX_MINIMISE="1", VERIF_MINIMISE_S="15")
+        env.pop("CMVERIF_REEXEC", None)
+        env.pop("PYTHONHASHSEED", None)
+        for prop in ("C08", "C09", "C12", "C15", "C17", "C18"):
+            p = subprocess.run([os.path.join(base.VERIF_DIR, "check"), prop, "--tier", "quick", "--budget", str(budget)], env=env,
+                               capture_output=True, text=True, timeout=1200, cwd=base.VERIF_DIR)
+            bad = [l[:300] for l in p.stdout.splitlines() if l.startswith(("VIOLATION", "HARNESS-ERROR"))]
+            rec["checks"][prop] = {"exit": p.returncode, "lines": bad[:2]}
+        rec["quiet"] = all(c["exit"] == 0 for c in rec["checks"].values())
+    finally:
+        shutil.rmtree(top, ignore_errors=True)
+    return rec
+
+
+def main_benign(argv):
+    budget = float(os.environ.get("VERIF_MUTANT_BUDGET_S", "20"))
+    sel = [a for a in argv if not a.startswith("-")]
+    out = []
+    for m in B:
+        if sel and not any(m["id"].startswith(x) for x in sel):
+            continue
+        try:
+            r = run_benign(m, budget)
+        except base.HarnessError as e:
+            r = {"id": m["id"], "error": str(e), "quiet": False}
+        out.append(r)
+        print(json.dumps(r), flush=True)
+    path = os.path.join(base.VERIF_DIR, "evidence", "selftest-benign.json")
+    with open(path, "w") as f:
+        json.dump({"variants": out, "quiet": sum(1 for r in out if r.get("quiet")), "total": len(out)}, f, indent=1)
+    noisy = [r["id"] for r in out if not r.get("quiet")]
+    print(f"benign variants run {len(out)}, all checks quiet on {len(out) - len(noisy)}, alarms on {noisy}")
+    return 0 if not noisy else 1
+
+
 def apply(src_root, m):
     p = os.path.join(src_root, m["path"])
     s = open(p).read()
